@@ -232,6 +232,36 @@ class RemoveFront(Simple, CartesianProductStrategy[WC, W]):
         return W(w[:k]), W(w[k:])
 
 
+class SplitFront(Simple, CartesianProductStrategy[WC, W]):
+    """A product with three factors of different minimum sizes:
+    C(p) = {p[:1]} x {p[1:s]} x C(p[s:])   when the safe cut s is at least 2."""
+
+    def decomposition_function(self, c):
+        if c.just_prefix or c.is_empty():
+            return None
+        s = safe_cut(c)
+        if s >= 2:
+            return (c.with_(prefix=c.prefix[:1], just_prefix=True), c.with_(prefix=c.prefix[1:s], just_prefix=True), c.with_(prefix=c.prefix[s:]))
+        return None
+
+    def extra_parameters(self, c, children=None):
+        if children is None:
+            children = self.decomposition_function(c)
+        return same_params(c, children)
+
+    def formal_step(self):
+        return "split front of prefix in two atoms"
+
+    def backward_map(self, c, ws, children=None):
+        yield W(ws[0] + ws[1] + ws[2])
+
+    def forward_map(self, c, w, children=None):
+        if children is None:
+            children = self.decomposition_function(c)
+        k = len(children[1].prefix)
+        return W(w[:1]), W(w[1:1 + k]), W(w[1 + k:])
+
+
 class WAtom(Simple, VerificationStrategy[WC, W]):
     """Atoms (classes holding exactly their prefix) are verified."""
 
@@ -521,7 +551,8 @@ def basic_pack(**kw):
 
 
 def make_pack(sym=False, inf=False, merge=False, iterative=False, factory=False, parent_factory=False,
-              prefix_verified=None, prefix_verified_rev=None, empty_prefix_verified=False, two_sets=False, no_initial=False, name=None, expand=True):
+              prefix_verified=None, prefix_verified_rev=None, empty_prefix_verified=False, two_sets=False, no_initial=False, name=None, expand=True,
+              split=False):
     inferral = ([MinimizePatterns()] if inf else []) + ([MergeStats()] if merge else [])
     exp = [ExpandFactory()] if factory else [Expand()]
     if parent_factory:
@@ -538,6 +569,7 @@ def make_pack(sym=False, inf=False, merge=False, iterative=False, factory=False,
         ver.append(EmptyPrefixVerified())
     nm = name or "w%s%s%s%s%s%s" % ("-sym" if sym else "", "-inf" if inf else "", "-merge" if merge else "",
                                     "-it" if iterative else "", "-fac" if factory else "", "-pfac" if parent_factory else "")
-    return StrategyPack(initial_strats=[] if no_initial else [RemoveFront()], inferral_strats=inferral,
+    initial = [] if no_initial else ([SplitFront(), RemoveFront()] if split else [RemoveFront()])
+    return StrategyPack(initial_strats=initial, inferral_strats=inferral,
                         expansion_strats=expansion, ver_strats=ver, name=nm,
                         symmetries=[Swap()] if sym else [], iterative=iterative)
